@@ -173,6 +173,16 @@ def run(ctx):
         ctx.note_case(json.dumps([it["prog"], it["script"]]), nontrivial)
     ctx.samples = [dict(sdk_program=it["prog"], outcome_script=it["script"]) for it in items[n_corpus:n_corpus + 3]]
 
+    # implementation-only oracle: two arrays that are both in use never share an address
+    n_sh = 0
+    for it in items:
+        sh = it["obs"].get("shared_addresses")
+        if sh and n_sh < 3:
+            n_sh += 1
+            ctx.violation(f"two live arrays share address {sh[0][2]}: the arrays the program calls {sh[0][0]} and {sh[0][1]} "
+                          f"(the later declaration wipes the earlier array on the controller)",
+                          dict(sdk_program=it["prog"], outcome_script=it["script"], late_reads=bool(it.get("late")),
+                               shared=sh[:5]), key=None)
     # implementation-only oracle: a handle read on the host equals the controller's value
     for it in items:
         bad = sc.host_equals_controller(it["obs"])
@@ -246,6 +256,8 @@ def replay(ctx, path):
     fd = sc.probe_free_deactivates(ctx.repo)
     it = item_of(ctx.repo, fd, prog, script, "replay", bool(rec.get("late_reads")))
     bad = sc.host_equals_controller(it["obs"])
+    if it["obs"].get("shared_addresses"):
+        ctx.violation("two live arrays share an address: " + str(it["obs"]["shared_addresses"][:3]), rec)
     _, b_bad, _ = sc.run_batch(ctx, "replay", [it])
     print("replay:", dict(pipeline_status=it["obs"]["status"], error=it["obs"].get("exc"), host_vs_controller=bad[:3],
                           oracle=sc.BCODE.get(b_bad.get(0), "agrees with direct execution")))
